@@ -89,7 +89,7 @@ def r1(ctx, rule="C16.R1", only=None):
 
 
 
-def eval_remove_replica(f, ns_byte=7, has_succ=True):
+def eval_remove_replica(f, ns_byte=7, has_succ=True, is_open=False):
     """Store::remove_replica evaluated (K6') on a concrete namespace id (32 x ns_byte): Store::modify runs the transaction body,
     every table call is recorded with its key / bounds rendered. Returns (result, [(table, op, rendered key or bounds)])."""
     from . import feval as E
@@ -107,7 +107,7 @@ def eval_remove_replica(f, ns_byte=7, has_succ=True):
             it.heap.setdefault("tables", E.Tok("tables"))
             return it.apply(args[1], [E.href("tables")])
         if name == "contains" and "HashSet" in (t["f"].get("full") or ""):
-            return E.Int(0)
+            return E.Int(1 if is_open else 0)
         ct = tables.call_table(t, types)
         if ct:
             log.append((ct[0], ct[1], E.describe(it.resolve(args[1]), f) if len(args) > 1 else ""))
@@ -660,6 +660,27 @@ def r11(ctx):
     if hasattr(C18, "r6"):
         ctx.share("C16.R11", C18.r6, "C18.R6", floor=1)
 
+def r12(ctx):
+    """"once removed, none of its entries ... can be observed": a removal that was acknowledged is not undone by a later request
+    that fails (the failing-body and destructor rows of C06.R4: the shared write transaction is neither dropped nor rolled back)"""
+    from . import C06
+    C06.share_failing_body(ctx, "C16.R12")
+
+def refused_removal_changes_nothing(ctx, rule):
+    """"removing a document is refused while it is open" - and the refusal comes before anything is touched: Store::remove_replica
+    evaluated on a document that is marked open returns an error and has made no call on any table (its entries, heads, peers,
+    policy and capability are exactly as they were)"""
+    f = ctx.facts
+    b = f.body(RR)
+    got, log = eval_remove_replica(f, 7, True, is_open=True)
+    ctx.check(got.startswith("Err") and not log, rule, RR, "refused-removal-changes-nothing", "document open: returns %s, table calls %s; spec: an error, no table touched" % (got, log), b.sp)
+
+
+def r13(ctx):
+    refused_removal_changes_nothing(ctx, "C16.R13")
+    ctx.floor("C16.R13", 1)
+
+
 def run(ctx):
     ctx.run_rule("C16.R1", r1)
     ctx.run_rule("C16.R2", r2)
@@ -672,3 +693,5 @@ def run(ctx):
     ctx.run_rule("C16.R9", r9)
     ctx.run_rule("C16.R10", r10)
     ctx.run_rule("C16.R11", r11)
+    ctx.run_rule("C16.R12", r12)
+    ctx.run_rule("C16.R13", r13)
